@@ -550,6 +550,20 @@ def D6_bond_order_precedence(repo, clause):
     # the user-rule block: the loop over `rules` that returns the rule's bond order
     loops = [n for n in fn.own_nodes() if isinstance(n, ast.For) and any(isinstance(x, ast.Name) and x.id == rules_p for x in ast.walk(n.iter))]
     if len(loops) != 1:
+        # table form: the rules are turned into a dict keyed by the (frozen) set of atom types and looked up once
+        dcs = [n for n in fn.own_nodes() if isinstance(n, ast.DictComp) and len(n.generators) == 1 and any(isinstance(x, ast.Name) and x.id == rules_p for x in ast.walk(n.generators[0].iter))]
+        dcs += [n for n in fn.own_nodes() if isinstance(n, ast.Call) and isinstance(n.func, ast.Name) and n.func.id == "dict" and n.args and any(isinstance(x, ast.Name) and x.id == rules_p for x in ast.walk(n.args[0]))]
+        if len(loops) == 0 and len(dcs) == 1:
+            dc = dcs[0]
+            it = dc.generators[0].iter if isinstance(dc, ast.DictComp) else dc.args[0]
+            rev = isinstance(it, ast.Call) and call_name(it) == "reversed" or (isinstance(it, ast.Subscript) and re.sub(r"\s", "", ast.unparse(it.slice)) == "::-1")
+            obs.append(Ob("D6", clause, fn, dc, bool(rev),
+                          "the user rules are folded into a dict `%s`: for two rules that name the same set of atom types a dict keeps the LAST, where the documented scan returns the FIRST "
+                          "matching rule%s" % (ast.unparse(dc)[:60], " (the rules are folded in reverse order, so the first one wins)" if rev else ""),
+                          slot="first-rule-wins", positive="robust"))
+            obs.append(Ob("D6", clause, fn, dc, False, "user-rule block in table form: the match test and the precedence of the built-in guesses are not re-derived for this form",
+                          slot="rule-match", undecided=True))
+            return obs
         raise AnalysisError("D6: loop over the user bond-order rules not found in guess_bond_order")
     loop = loops[0]
     # outermost statement of the rules block (the `if rules is not None:` around the loop, if any)
